@@ -50,7 +50,9 @@ LEVEL_TEXT = ("Machine-checked: an inductive invariant (ownership of stepMtx/pau
               "management mutations never overlap), quiescence at lock level (while a user thread is in its critical section the driver "
               "is outside every handler/task) and quiescence at data level over the dispatch model (destroyed_socket_stays_silent, "
               "disconnected_socket_stays_silent: after AsyncUnregister NO continuation of any history - peers sending, closing, resetting, "
-              "other sockets, any steps - ever invokes a handler of that socket again; ids are never reused). The executable validator is proved sound (accepted traces are Tr-paths inside Reach). "
+              "other sockets, any steps - ever invokes a handler of that socket again; ids are never reused) and over the ToDo model "
+              "(cancelled_todo_never_runs, executed_todo_runs_once: after Cancel no continuation invokes the task unless a Shift, the only "
+              "operation that re-schedules an existing ToDo, occurs in the continuation or in a task body). The executable validator is proved sound (accepted traces are Tr-paths inside Reach). "
               "Tied to /repo by running the real library threads under a deterministic scheduler and requiring every lock/poll/pipe event "
               "to be a transition of the model with identical mutex ownership, plus direct checks of the property on the trace "
               "(no overlap, handler on driver thread holding stepMtx, nothing after destructor/Cancel returned).")
